@@ -122,7 +122,7 @@ def run_fault(case, chooser):
             problems.append({"kind": "session-closed", "codes": got, **sig_base})
         if any(c.startswith("1") for c in first_cmd_codes):
             mine = [t for t in w.net.all_transports if t.side == "server" and t.peer is not None
-                    and t.peer.side == s0.peer.name and t.accepted and not t.closing and not t.closed
+                    and t.peer.side == s0.peer.name and t.accepted and t.held()
                     and t.get_extra_info("sockname")[1] != 2121]
             if mine:
                 problems.append({"kind": "data-connection-left-open-after-451", "codes": first_cmd_codes, **sig_base})
